@@ -278,13 +278,14 @@ def gate (f : Flags) (p : Bool) (v : Val) (k : Val → R Val) : R Val :=
   else k v
 
 /-- `Number._validate` (676-686). -/
+def outOfRange (lo hi : Option Num) (n : Num) : Bool :=
+  (match lo with | some l => Num.lt n l | none => false)
+  || (match hi with | some h => Num.lt h n | none => false)
+
 def rangeCheck (lo hi : Option Num) (v : Val) : R Val :=
   match v.num? with
   | none => .error .type
-  | some n =>
-    if (match lo with | some l => Num.lt n l | none => false)
-       || (match hi with | some h => Num.lt h n | none => false)
-    then .error .value else .ok v
+  | some n => if outOfRange lo hi n then .error .value else .ok v
 
 def KeySpec.isConst : KeySpec → Bool
   | .const _ => true
@@ -365,9 +366,7 @@ mutual
         match v with
         | .list xs => do
           let ys ← xs.mapM (fun x => apply env elem p x)                     -- 1170-1178
-          if ys.length < mn then .error .value                               -- 1183
-          else if (match mx with | some m => decide (m < ys.length) | none => false) then .error .value
-          else .ok (.list ys)
+          if sizeOk ys.length mn mx then .ok (.list ys) else .error .value    -- 1183-1200
         | _ => .error .type
     | .tuple elems mn mx f, p, v => gate f p v fun v => do
         let v ← typeCheck env (some [.tuple]) v
@@ -378,13 +377,10 @@ mutual
             else do
               let ys ← applyZip env elems p xs
               .ok (.tuple ys)
-          else if xs.length < mn then .error .value                          -- 1455
-          else if (match mx with | some m => decide (m < xs.length) | none => false) then .error .value
-          else match elems with
-            | e :: _ => do
-              let ys ← xs.mapM (fun x => apply env e p x)                    -- 1471-1479
-              .ok (.tuple ys)
-            | [] => if xs.isEmpty then .ok (.tuple []) else .error .type     -- (IndexError; unreachable for constructed specs)
+          else if !sizeOk xs.length mn mx then .error .value                 -- 1455-1470
+          else do
+            let ys ← applyVar env elems p xs                                 -- 1471-1479
+            .ok (.tuple ys)
         | _ => .error .type
     | .dict none f, p, v => gate f p v fun v => typeCheck env (some [.dict]) v
     | .dict (some fields) f, p, v => gate f p v fun v => do
@@ -412,6 +408,10 @@ mutual
             match unionConv env cands p v with                               -- 2784-2794
             | some r => r
             | none => .error .type
+  /-- Variable-length tuple: every element by `elements[0]`. -/
+  def applyVar (env : Env) : List Spec → Bool → List Val → R (List Val)
+    | [], _, xs => if xs.isEmpty then .ok [] else .error .type     -- (IndexError; unreachable for constructed specs)
+    | e :: _, p, xs => xs.mapM (fun x => apply env e p x)
   /-- Fixed-length tuple: element `i` by spec `i`. -/
   def applyZip (env : Env) : List Spec → Bool → List Val → R (List Val)
     | [], _, _ => .ok []
@@ -477,8 +477,9 @@ namespace Pg.Typing
 
 /-! ### `is_compatible`
 
-Mirrors the tree *with the F09 repair applied* (fixes/C04-F09.patch): a frozen spec is compatible
-only with a frozen spec of equal default, and `List._is_compatible` compares `min_size`. -/
+Mirrors the tree *with fixes/C04-F09.patch applied* (`Union.is_compatible` compares noneable).
+`frozen` is ignored by every `is_compatible` and `List._is_compatible` ignores `min_size`
+(findings F09, F09b: the repo's own suite pins / depends on both behaviours). -/
 
 mutual
   /-- Non-union leaves of a spec (`Union.is_compatible` 2825-2829 iterates the other union's
@@ -513,53 +514,44 @@ def numCompat (slo shi olo ohi : Option Num) : Bool :=
    | none => true
    | some h => match ohi with | none => false | some oh => !Num.lt h oh)
 
-/-- The guard added by the F09 repair at the top of every `is_compatible`. -/
-def frozenCompat (a b : Flags) : Bool := b.frozen && Val.pyEq a.default b.default
 
 mutual
   /-- `a.is_compatible(b)`. -/
   def isCompatible (env : Env) : Spec → Spec → Bool
-    | .any f, b => if f.frozen then frozenCompat f b.flags else true                      -- 2999
+    | .any _, _ => true                                                                  -- 2999
     | .bool f, b =>
-      if f.frozen then frozenCompat f b.flags else
       match b with
       | .bool g => !(!f.noneable && g.noneable)                                            -- 352-356
       | _ => false
     | .int lo hi f, b =>
-      if f.frozen then frozenCompat f b.flags else
       match b with
       | .int olo ohi g => !(!f.noneable && g.noneable) &&
           numCompat (lo.map Num.ofInt) (hi.map Num.ofInt) (olo.map Num.ofInt) (ohi.map Num.ofInt)
       | _ => false
     | .float lo hi f, b =>
-      if f.frozen then frozenCompat f b.flags else
       match b with
       | .float olo ohi g => !(!f.noneable && g.noneable) && numCompat lo hi olo ohi
       | _ => false
     | .str _ f, b =>
-      if f.frozen then frozenCompat f b.flags else
       match b with
       | .str _ g => !(!f.noneable && g.noneable)                                           -- 585-591
       | _ => false
     | .enum vals f, b =>
-      if f.frozen then frozenCompat f b.flags else
       if b.flags.frozen && Val.pyIn b.flags.default vals then true                         -- 979-980
       else match b with
         | .enum ovals g => !(!f.noneable && g.noneable) && ovals.all (fun v => Val.pyIn v vals)   -- 983-988
         | _ => false
     | .list elem mn mx f, b =>
-      if f.frozen then frozenCompat f b.flags else
       match b with
       | .list oelem omn omx g =>
         !(!f.noneable && g.noneable) &&
-        decide (mn ≤ omn) &&                                                               -- F09 repair
+        -- (`min_size` is not compared: finding F09b)
         (match mx with
          | none => true
          | some m => match omx with | none => false | some om => decide (om ≤ m)) &&       -- 1208-1210
         isCompatible env elem oelem
       | _ => false
     | .tuple elems mn mx f, b =>
-      if f.frozen then frozenCompat f b.flags else
       match b with
       | .tuple oelems omn omx g =>
         !(!f.noneable && g.noneable) &&
@@ -571,20 +563,15 @@ mutual
           -- `len(other)` is `len(other.elements)` (1430-1432)
           !(decide (oelems.length < mn) ||
             (match mx with | some m => decide (m < oelems.length) | none => false)) &&
-          (match elems with
-           | e :: _ => oelems.all (fun oe => isCompatible env e oe)                        -- 1535-1537
-           | [] => oelems.isEmpty)
+          headCompatAll env elems oelems                                                   -- 1535-1537
         else
           decide (mn ≤ omn) &&                                                             -- 1541
           (match mx with
            | none => true
            | some m => match omx with | none => false | some om => decide (om ≤ m)) &&     -- 1543-1545
-          (match elems, oelems with
-           | e :: _, oe :: _ => isCompatible env e oe
-           | _, _ => false))
+          headCompat env elems oelems)                                                     -- 1546
       | _ => false
     | .dict fields f, b =>
-      if f.frozen then frozenCompat f b.flags else
       match b with
       | .dict ofields g =>
         !(!f.noneable && g.noneable) &&
@@ -597,27 +584,39 @@ mutual
              ofs.all (fun of_ => hasKey fs of_.key) && fieldsCompat env fs ofs)
       | _ => false
     | .obj c f, b =>
-      if f.frozen then frozenCompat f b.flags else
       match b with
       | .obj oc g => !(!f.noneable && g.noneable) && env.sub oc c                           -- 1974
       | _ => false
     | .union cands f, b =>
-      if f.frozen then frozenCompat f b.flags else
       !(!f.noneable && b.flags.noneable) &&                                                -- F09 repair
       (leaves b).all (fun ob => anyCompat env cands ob)                                    -- 2823-2834
+  termination_by structural a => a
+  /-- `self.elements[0]` compatible with every element spec of the other (fixed) tuple. -/
+  def headCompatAll (env : Env) : List Spec → List Spec → Bool
+    | [], os => os.isEmpty
+    | e :: _, os => os.all (fun oe => isCompatible env e oe)
+  termination_by structural a => a
+  /-- `self.elements[0].is_compatible(other.elements[0])`. -/
+  def headCompat (env : Env) : List Spec → List Spec → Bool
+    | e :: _, oe :: _ => isCompatible env e oe
+    | _, _ => false
+  termination_by structural a => a
   def zipCompat (env : Env) : List Spec → List Spec → Bool
     | [], _ => true
     | _ :: _, [] => true
     | s :: ss, o :: os => isCompatible env s o && zipCompat env ss os
+  termination_by structural a => a
   def fieldsCompat (env : Env) : List Field → List Field → Bool
     | [], _ => true
     | .mk k s :: rest, ofs =>
       (match findField ofs k with
        | none => false
        | some os => isCompatible env s os) && fieldsCompat env rest ofs
+  termination_by structural a => a
   def anyCompat (env : Env) : List Spec → Spec → Bool
     | [], _ => false
     | c :: cs, o => isCompatible env c o || anyCompat env cs o
+  termination_by structural a => a
 end
 
 end Pg.Typing
@@ -842,12 +841,9 @@ mutual
           else
             let mn' := if mn == 0 then bmn else mn                                          -- 1514
             let mx' := match mx with | none => bmx | some m => some m                      -- 1516
-            match elems, belems with
-            | e :: rest, be :: _ =>
-              match extendSelf env e be with
-              | .error err => .error err
-              | .ok e' => .ok (.tuple (e' :: rest) mn' mx' f)
-            | _, _ => .error .type
+            match extendHead env elems belems with
+            | .error err => .error err
+            | .ok es => .ok (.tuple es mn' mx' f)
       | .ok _ => .ok (.tuple elems mn mx f)
     | .dict fields f, base =>
       match extendPre env (.dict fields f) base with
@@ -887,6 +883,15 @@ mutual
         | .error e => .error e
         | .ok cs => .ok (.union cs f)
       | .ok _ => .ok (.union cands f)
+  termination_by structural a => a
+  /-- `self.elements[0].extend(base.elements[0])` (1518). -/
+  def extendHead (env : Env) : List Spec → List Spec → R (List Spec)
+    | e :: rest, be :: _ =>
+      match extendSelf env e be with
+      | .error err => .error err
+      | .ok e' => .ok (e' :: rest)
+    | _, _ => .error .type
+  termination_by structural a => a
   def extendZip (env : Env) : List Spec → List Spec → R (List Spec)
     | [], _ => .ok []
     | s :: ss, [] => .ok (s :: ss)
@@ -896,6 +901,7 @@ mutual
       | .ok s' => match extendZip env ss bs with
         | .error e => .error e
         | .ok ss' => .ok (s' :: ss')
+  termination_by structural a => a
   def extendAll (env : Env) : List Spec → Spec → R (List Spec)
     | [], _ => .ok []
     | s :: ss, b =>
@@ -904,6 +910,7 @@ mutual
       | .ok s' => match extendAll env ss b with
         | .error e => .error e
         | .ok ss' => .ok (s' :: ss')
+  termination_by structural a => a
   def extendFields (env : Env) : List Field → List Field → R (List Field)
     | [], _ => .ok []
     | .mk k s :: rest, bfs =>
@@ -914,6 +921,7 @@ mutual
       | .ok s' => match extendFields env rest bfs with
         | .error e => .error e
         | .ok rest' => .ok (.mk k s' :: rest')
+  termination_by structural a => a
   def extendCands (env : Env) : List Spec → Spec → R (List Spec)
     | [], _ => .ok []
     | sc :: scs, b =>
@@ -925,6 +933,7 @@ mutual
         | .ok sc' => match extendCands env scs b with
           | .error e => .error e
           | .ok scs' => .ok (sc' :: scs')
+  termination_by structural a => a
 end
 
 /-- `child.extend(base)`: the returned spec. -/
